@@ -26,8 +26,8 @@ CHECKS = {
     "C04": ("H1 whole runs with in-flight tracking and a rendezvous inside bodies",
             "deterministic simulation: seeded schedules, in-flight high-water and handle-aliasing invariant, rendezvous liveness bound in simulated time",
             "non-trivial: >=2 invocations and (high-water >=2 or rendezvous reached)"),
-    "C05": ("H1 whole runs, every ending (duration, trigger end, limit, cancel at any instant/step, setup failure), blocking bodies, slow output, stalls",
-            "deterministic simulation with fault injection (cancel, stall, slow output): bounded liveness in simulated time + quiescence/leak oracle after return",
+    "C05": ("H1 whole runs (run.NewRun, the cobra command, the public f1 entry point), every ending (duration, trigger end, limit, cancel at any instant / step / point of f1's own protocol, setup failure), blocking bodies, slow output, stalls; H6 config-file runs",
+            "deterministic simulation with fault injection (cancel incl. site-relative placement, stall, slow output): bounded liveness in simulated time, completion timeout only with an iteration in flight, quiescence/leak oracle after return",
             "non-trivial: Do was called and returned (every run exercises an ending)"),
     "C06": ("H1 whole runs with generated scenario programs registering/failing/panicking in setup, bodies and cleanups",
             "deterministic simulation: generated scenario programs under seeded schedules and endings, lifecycle-order oracle over the event log",
@@ -48,7 +48,7 @@ CHECKS = {
             "deterministic simulation: exact simulated clock makes measured durations comparable to the body's own clock; reference-model aggregation",
             "non-trivial: >=2 checked operations (H3) / durations compared (H1)"),
     "C19": ("H1 whole runs in structured and interactive output modes, progress lines bounded by ground truth at their log position",
-            "deterministic simulation: rendered output of real simulated runs (incl. zero iterations / zero elapsed time) vs result and ground truth",
+            "deterministic simulation: rendered output of real simulated runs (incl. zero iterations / zero elapsed time, slow terminal) vs result and ground truth; printed chunks whole, unchanged while written, exactly once",
             "non-trivial: final summary compared"),
     "C20": ("H1 whole runs over f1.CombineScenarios of 1-6 generated components",
             "deterministic simulation: generated component behaviours under seeded schedules, order/handle oracle over the event log",
@@ -69,10 +69,10 @@ CHECKS = {
             "deterministic simulation: simulated randomness with boundary draws, carry-bound oracle",
             "non-trivial: >=10 ticks with jitter > 0"),
     "C14": ("H6 generated rate/stage strings, flag vectors and YAML (incl. torn/corrupted files) -> constructed triggers run on the simulated clock",
-            "deterministic simulation: accepted inputs are executed under the simulator (disk-corruption faults on the config file); reject-or-runnable oracle, behavioural meaning of rate strings",
+            "deterministic simulation: accepted inputs are executed under the simulator (disk-corruption faults on the config file); reject-or-runnable oracle, rate function of every accepted trigger probed after its run, behavioural meaning of rate strings",
             "non-trivial: input accepted and run, or rejected with an error"),
-    "C15": ("H6 generated config files; file-mode runs crashed at arbitrary instants and restarted from the same file at the later simulated now",
-            "deterministic simulation with crash-restart fault: plan oracle (kept stages, duration, limits) and run-time stage order / environment oracle",
+    "C15": ("H6 generated config files (twin stages, stray fields, overload documents) run through run.NewRun and through `f1 run file`; file-mode runs crashed at arbitrary instants and restarted from the same file at the later simulated now",
+            "deterministic simulation with crash-restart fault: plan oracle (kept stages, duration, limits), behaviour under the limits section, run-time stage order / environment / twin-stage oracle",
             "non-trivial: >=2 stages, plan and run-time order evaluated"),
 }
 
